@@ -87,9 +87,15 @@ def gen_noise(rng):
 def gen_wellformed_items(rng, n, p_filler=0.08, end_with_frame=0.9, mix=(0.4, 0.35, 0.25)):
     """C02-class script: well-formed items only"""
     items = []
+    p_repeat = rng.choice((0.0, 0.0, 0.15, 0.4))
     for _ in range(n):
         r = rng.random()
-        if r < 0.55:
+        prev = [it for it in items if it[0] == "frame"]
+        if prev and rng.random() < p_repeat:
+            # the same frame again, verbatim (stations repeat static messages)
+            it = prev[-1] if rng.random() < 0.5 else rng.choice(prev)
+            items.append([it[0], it[1], it[2]])
+        elif r < 0.55:
             items.append(gen_frame(rng, mix))
         elif r < 0.55 + p_filler:
             items.append(gen_filler(rng))
@@ -212,11 +218,54 @@ def gen_bad(rng):
     return ["bad", (base[:-3] + bytes(rng.getrandbits(8) for _ in range(3))).hex(), "crcrand"]
 
 
-def gen_hostile_items(rng, n):
+def damaged_copy(rng, raw):
+    """copy of an earlier frame damaged in the payload only, in the CRC only,
+    or carrying the CRC bytes of another frame"""
+    k = rng.randrange(3)
+    nbits = len(raw) * 8
+    if k == 0 and len(raw) > 6:
+        n = rng.choice((1, 2, 3))
+        return wire.flip_bits(raw, [rng.randrange(24, nbits - 24) for _ in range(n)]), "copy:payload"
+    if k == 1:
+        return wire.flip_bits(raw, [rng.randrange(nbits - 24, nbits)]), "copy:crc"
+    p = bytes(raw[3:-3])
+    if len(p) > 2:
+        j = rng.randrange(2, len(p))
+        p = p[:j] + bytes([p[j] ^ (1 << rng.randrange(8))]) + p[j + 1 :]
+    return raw[:3] + p + raw[-3:], "copy:samecrc"
+
+
+def gen_long_error_run(rng, n, style=None):
+    """n tiny items every one of which the reader has to reject (deep error
+    histories: retry/recursion/accumulation bugs need hundreds of them)"""
+    style = style if style is not None else rng.randrange(4)
     items = []
     for _ in range(n):
+        k = style if style < 3 else rng.randrange(3)
+        if k == 0:
+            items.append(["bad", bytes((0xD3, rng.choice((0xFC, 0x04, 0x80, 0xFF)))).hex(), "d3xx"])
+        elif k == 1:
+            f = wire.rtcm_frame(b"")
+            items.append(["bad", (f[:-1] + bytes([f[-1] ^ 1])).hex(), "tinybadcrc"])
+        else:
+            items.append(["filler", wire.rtcm_frame(b"").hex(), "len0"])
+    return items
+
+
+def gen_hostile_items(rng, n):
+    items = []
+    p_copy = rng.choice((0.0, 0.0, 0.15, 0.4))
+    for _ in range(n):
         r = rng.random()
-        if r < 0.35:
+        prev = [it for it in items if it[0] == "frame"]
+        if prev and rng.random() < p_copy:
+            it = prev[-1] if rng.random() < 0.5 else rng.choice(prev)
+            if rng.random() < 0.3:
+                items.append([it[0], it[1], it[2]])
+            else:
+                dmg, tag = damaged_copy(rng, bytes.fromhex(it[1]))
+                items.append(["bad", dmg.hex(), tag])
+        elif r < 0.35:
             items.append(gen_frame(rng))
         elif r < 0.5:
             items.append(gen_bad(rng))
